@@ -1,5 +1,8 @@
-import KalignModel.Props.C10
+import KalignModel.Props.PipelineFile
 #print axioms Kalign.weave
 #print axioms Kalign.C10_subalignment_preserved
 #print axioms Kalign.C10_column_mates_stay
 #print axioms Kalign.C01_tree_integrity
+#print axioms Kalign.PipelineFile.recAln_eq_nodeVal
+#print axioms Kalign.PipelineFile.recAln_subalignment_preserved
+#print axioms Kalign.PipelineFile.recAln_subalignment_finalRow_partial
